@@ -3,6 +3,7 @@ module github.com/xelaj/mtproto/verifharness
 go 1.13
 
 require (
+	golang.org/x/crypto v0.0.0-20210322153248-0c34fe9e7dc2
 	github.com/xelaj/errs v0.0.0-20200831133608-d1c11863e019
 	github.com/xelaj/mtproto v0.0.0
 	github.com/xelaj/mtproto/internal/cmd/tlgen v0.0.0
